@@ -5,6 +5,7 @@ from money import *
 from book import remove_iff_zero, record_base, persistence_identity
 from invariants import check_I2, check_I4, check_I7, l_uns, ask_state, CB_PATH
 from c07 import funds_rule
+from c10 import check_I5_established
 PROP = 'C01'
 
 def ask_remaining(p, rec_term, val):
@@ -119,6 +120,8 @@ def run(eng, tier):
             check_exact_conversions(eng, PROP, p)
             remove_iff_zero(eng, PROP, p)
             check_I2(eng, PROP, p); check_I4(eng, PROP, p); check_I7(eng, PROP, p)
+    # conservation groups a fresh bid's fee with its quote (same denomination class): that equality must be enforced at admission (I5)
+    check_I5_established(eng, PROP)
     # the books are what was written: storage round-trips every field of every persisted record
     persistence_identity(eng, PROP)
     # ModifyContract moves no funds
